@@ -1,6 +1,6 @@
 (** C02 - Exhausting IterateSATGen yields exactly the valid sequences.
 
-    [C02_complete]: in the fragment F1 every sequence valid for
+    [C02_complete]: in the fragment F1 (CodeSem.in_f1, described in Properties/C01.v) every sequence valid for
     [code_sem fb] is the decoding of a model of the formula handed to the
     solver; [C02_once]: of exactly one (two models with the same sequence agree
     on every variable of the formula).
